@@ -416,6 +416,17 @@ class Module:
 # ---------------------------------------------------------------------------
 # run-time objects
 
+class _Undef:
+    """Association status of a pointer that was never nullified, allocated
+    or pointer-assigned: undefined (neither associated nor disassociated)."""
+
+    def __repr__(self):
+        return "UNDEFINED-POINTER"
+
+
+UNDEF = _Undef()
+
+
 class Cell:
     """A variable slot (argument association is by reference: cells are
     shared)."""
@@ -426,6 +437,8 @@ class Cell:
         self.val = val
         self.present = True
         self.dim = dim
+        if val is None and "pointer" in attrs:
+            self.val = UNDEF
 
     @property
     def is_array(self):
@@ -506,6 +519,8 @@ class Machine:
 
     def deref_struct(self, cell):
         v = cell.val
+        if v is UNDEF:
+            raise MemError("use of a structure pointer whose association status is undefined")
         if isinstance(v, Block):
             if not v.live:
                 raise MemError("use of freed structure")
@@ -516,6 +531,8 @@ class Machine:
 
     def array_of(self, cell, what="use"):
         v = cell.val
+        if v is UNDEF:
+            raise MemError("%s through a pointer whose association status is undefined (never nullified)" % what)
         if v is None:
             raise MemError("%s of unassociated/unallocated storage" % what)
         if not isinstance(v, Block):
@@ -635,6 +652,8 @@ class Machine:
             return self.ref(args[0], fr).present
         if name in ("associated", "allocated"):
             c = self.ref(args[0], fr)
+            if c.val is UNDEF:
+                raise MemError("associated() of a pointer whose association status is undefined (never nullified)")
             return c.val is not None
         vals = [self.ev(a, fr) for a in args]
         if name == "int":
@@ -784,7 +803,7 @@ class Machine:
             else:
                 c = self.ref(a, fr)
                 b = Block("scalar", 1, [None], where=self.where(s))
-            if c.is_allocatable and c.val is not None:
+            if c.is_allocatable and c.val is not None and c.val is not UNDEF:
                 raise MemError("allocate of an already allocated allocatable")
             c.val = b
             self.blocks.append(b)
@@ -794,6 +813,8 @@ class Machine:
             return
         if k == "deallocate":
             c = self.ref(s[1][0], fr)
+            if c.val is UNDEF:
+                raise MemError("deallocate through a pointer whose association status is undefined")
             if c.val is None:
                 raise MemError("deallocate of unassociated pointer")
             if not c.val.live:
@@ -1133,7 +1154,7 @@ class Stepper:
         self.mod = Module(text)
         self.M = Machine(self.mod, ops, check_uninit=check_uninit)
         self.state = self.M.new_struct("dagrt_state_type")
-        self.state_cell = Cell("type(dagrt_state_type)", ["pointer"], self.state)
+        self.state_cell = Cell("type(dagrt_state_type)", ["pointer"], self.state)   # allocated by the driver
 
     def initialize(self, **kw):
         args, decls, body = self.mod.subs["initialize"]
@@ -1167,6 +1188,8 @@ class Stepper:
     def field(self, name):
         c = self.state.f[name]
         v = c.val
+        if v is UNDEF:
+            return None
         if isinstance(v, Block):
             if not v.live:
                 return "FREED"
